@@ -1201,3 +1201,9 @@ V('c09-setqualifier-without-namespace', 'C09', 'C09.R15',
   ('pywbem/_mof_compiler.py', "            p.parser.handle.SetQualifier(qualdecl, namespace=ns)\n        elif ce.status_code == CIM_ERR_NOT_SUPPORTED:",
    "            p.parser.handle.SetQualifier(qualdecl)\n        elif ce.status_code == CIM_ERR_NOT_SUPPORTED:"),
   'namespace-not-by-keyword')
+V('c09-pragma-classnames-not-set-up', 'C09', 'C09.R16',
+  ('pywbem/_mof_compiler.py', "        if namespace not in p.parser.classnames:\n            p.parser.classnames[namespace] = []\n", ""),
+  'cache-not-set-up')
+V('c10-modify-key-default-retargets', 'C10', 'C10.R20',
+  ('pywbem_mock/_providerdispatcher.py', "                    if cl_prop.qualifiers.get('key', False):\n                        # Key properties cannot be modified. Setting the\n                        # class default would also change the keybindings\n                        # of the instance path, i.e. which instance is\n                        # modified.\n                        continue\n", ""),
+  'copy-retargeted')
